@@ -34,6 +34,7 @@ def ops_table(values=None):
         def call2(self, v, i):
             j = (self.pool.id(v) + i) % K
             self.calls.append(j)
+            k2.CALLS.append(k2.CURRENT_TAG[0])
             r = self.at(j)
             if r[0] == "raise":
                 raise UserError(r[1])
